@@ -72,6 +72,33 @@ theorem failures_nil_iff (lt : LangTypes) (p : Program) :
   · intro h o ho
     simp [h o ho]
 
+/-! ## the language table of a scope never changes -/
+
+@[simp] theorem Env.lt_push (Γ : Env) (nm : String) (b : Bind) : (Γ.push nm b).lt = Γ.lt := rfl
+@[simp] theorem Env.lt_extend (Γ : Env) (s : Node) : (Γ.extend s).lt = Γ.lt := by
+  unfold Env.extend; split <;> (try split) <;> rfl
+@[simp] theorem Env.lt_extendF (Γ : Env) (s : Node) : (Γ.extendF s).lt = Γ.lt := by
+  unfold Env.extendF; split <;> rfl
+@[simp] theorem Env.lt_smartCast (Γ : Env) (c : Node) : (Γ.smartCast c).lt = Γ.lt := by
+  unfold Env.smartCast; split <;> (try split) <;> rfl
+theorem Env.lt_foldl {α} (f : Env → α → Env) (h : ∀ Γ a, (f Γ a).lt = Γ.lt) (xs : List α) (Γ : Env) :
+    (xs.foldl f Γ).lt = Γ.lt := by
+  induction xs generalizing Γ with
+  | nil => rfl
+  | cons x xs ih => simp only [List.foldl]; rw [ih, h]
+@[simp] theorem Env.lt_bindParams (Γ : Env) (ps : List Node) : (Γ.bindParams ps).lt = Γ.lt := by
+  unfold Env.bindParams
+  apply Env.lt_foldl
+  intro Γ a; split <;> rfl
+@[simp] theorem Env.lt_bindClass (Γ : Env) (c : Node) : (Γ.bindClass c).lt = Γ.lt := by
+  unfold Env.bindClass
+  apply Env.lt_foldl
+  intro Γ km
+  simp only
+  rw [Env.lt_foldl, Env.lt_foldl]
+  · intro Γ f; split <;> rfl
+  · intro Γ g; rfl
+
 /-! ## clause lemmas: the judgement unfolds along the walk -/
 
 theorem forall_mem_append' {α} {P : α → Prop} {xs ys : List α} :
